@@ -2,14 +2,53 @@ package main
 
 import (
 	"fmt"
+	"strings"
 
-	"github.com/ajitpratap0/GoSQLX/pkg/sql/tokenizer"
+	"github.com/ajitpratap0/GoSQLX/pkg/gosqlx"
+	"verif/internal/astdump"
 )
 
 func main() {
-	z := tokenizer.GetTokenizer()
-	t, _ := z.Tokenize([]byte("USING hash btree gin gist HASH brin"))
-	for _, x := range t {
-		fmt.Println(x.Token.Type, x.Token.Type.String(), x.Token.Value)
+	for _, s := range []string{
+		"MERGE INTO t USING (SELECT a FROM u) AS s ON t.a = s.a WHEN MATCHED THEN DELETE",
+		"CREATE VIEW v AS WITH c AS (SELECT 1) SELECT * FROM c",
+		"CREATE MATERIALIZED VIEW mv (a, b) AS SELECT 1, 2",
+		"CREATE TABLE t (a INT REFERENCES s.o (x))",
+		"CREATE TABLE t (a INT, FOREIGN KEY (a) REFERENCES s.o (x))",
+		"CREATE TABLE t (a INT CONSTRAINT nn NOT NULL)",
+		"CREATE TABLE t (a TIMESTAMP DEFAULT CURRENT_TIMESTAMP)",
+		"CREATE TABLE t (a INT DEFAULT (1 + 2))",
+		"CREATE TABLE t (a INT DEFAULT -1)",
+		"CREATE TABLE t (a INT DEFAULT 1 + 2)",
+		"CREATE TABLE t (a NUMERIC(10, 2))",
+		"CREATE TABLE t (a DOUBLE PRECISION)",
+		"CREATE TABLE t (a TIMESTAMP WITH TIME ZONE)",
+		"CREATE TABLE t (a INT[])",
+		"CREATE TABLE t (a VARCHAR)",
+		"CREATE TABLE t (a INT PRIMARY KEY AUTO_INCREMENT)",
+		"CREATE TABLE t (a INT GENERATED ALWAYS AS IDENTITY)",
+		"CREATE TABLE t (a INT) PARTITION BY RANGE (a)",
+		"CREATE TABLE s.t AS SELECT 1",
+		"CREATE INDEX ix ON t (a NULLS FIRST)",
+		"CREATE INDEX ix ON t ((a + 1))",
+		"CREATE INDEX CONCURRENTLY ix ON t (a)",
+		"CREATE INDEX ON t (a)",
+		"DROP TABLE t, u",
+		"DROP SCHEMA s",
+		"DROP INDEX CONCURRENTLY ix",
+		"TRUNCATE ONLY t",
+		"MERGE INTO t USING s ON t.a = s.a WHEN NOT MATCHED BY TARGET THEN INSERT VALUES (1)",
+		"MERGE INTO t USING s ON t.a = s.a WHEN NOT MATCHED THEN INSERT DEFAULT VALUES",
+		"MERGE INTO t USING s ON t.a = s.a WHEN MATCHED THEN UPDATE SET a = 1 WHERE t.b > 0",
+		"MERGE INTO t USING s ON t.a = s.a WHEN MATCHED THEN DO NOTHING",
+		"ALTER TABLE t ADD CONSTRAINT pk PRIMARY KEY (a)",
+	} {
+		t, err := gosqlx.Parse(s)
+		if err != nil {
+			e := strings.Split(err.Error(), "\n")[0]
+			fmt.Printf("REJECT %-90s %s\n", s, e[strings.Index(e, "column 0:")+9:])
+			continue
+		}
+		fmt.Printf("ok     %-90s %s\n", s, astdump.Dump(t.Statements))
 	}
 }
